@@ -195,6 +195,20 @@ def positives(seed, n_seeded):
     add("use scale_info::TypeInfo as Metadata;\n#[derive(TypeInfo)]\n#[scale_info(bounds(T: Metadata + 'static))]\npub struct S<T> {\n    a: T,\n    b: Vec<T>,\n}", [("S<u8>", [("T", S)])], ["bounds_attr", "bounds_through_renamed_import"])
     each("S", "<T>", "", [("", "T")], [("S<u8>", [("T", S)])], ["bounds_attr", "bounds_through_path"], attrs="#[scale_info(bounds(T: ::scale_info::TypeInfo + 'static))]\n")
     each("S", "<T>", "", [("", "T")], [("S<u8>", [("T", S)])], ["bounds_attr", "bounds_through_static_type_info"], attrs="#[scale_info(bounds(T: scale_info::StaticTypeInfo))]\n")
+    # 12. definitions without any type parameter (const parameters / lifetimes only) whose explicit bounds are really needed
+    add("pub struct Buf<const N: usize>(pub [u8; N]);\nimpl<const N: usize> TypeInfo for Buf<N> where [u8; N]: Default {\n    type Identity = Self;\n    fn type_info() -> Type {\n        Type::builder().path(Path::new(\"Buf\", \"m\")).composite(Fields::unnamed().field(|f| f.ty::<[u8; N]>()))\n    }\n}\n"
+        "#[derive(TypeInfo)]\n#[scale_info(bounds([u8; N]: Default))]\npub struct S<const N: usize> {\n    b: Buf<N>,\n    c: u8,\n}", [("S<3>", []), ("S<0>", [])], ["bounds_attr", "bounds_needed_without_type_params", "const_param"])
+    add("pub trait Pick { type Out; }\npub struct Sel<const W: bool>;\nimpl Pick for Sel<true> { type Out = u64; }\nimpl Pick for Sel<false> { type Out = u8; }\n"
+        "#[derive(TypeInfo)]\n#[scale_info(bounds(Sel<W>: Pick, <Sel<W> as Pick>::Out: TypeInfo + 'static))]\npub struct S<const W: bool> where Sel<W>: Pick {\n    v: <Sel<W> as Pick>::Out,\n}", [("S<true>", []), ("S<false>", [])],
+        ["bounds_attr", "bounds_needed_without_type_params", "const_param", "assoc"])
+    add("pub trait Named<'a> { type Out; }\nimpl<'a> Named<'a> for u8 { type Out = &'a str; }\n#[derive(TypeInfo)]\n#[scale_info(bounds('a: 'static, <u8 as Named<'a>>::Out: TypeInfo + 'static))]\npub struct S<'a> {\n    v: <u8 as Named<'a>>::Out,\n}",
+        [("S<'static>", [])], ["bounds_attr", "bounds_needed_without_type_params", "lifetime"])
+    # 13. expansion sites where the prelude is absent or its names are taken
+    add("pub mod bare {\n    #![no_implicit_prelude]\n    #[derive(::scale_info::TypeInfo)]\n    pub struct S<T, U> {\n        pub a: T,\n        pub b: ::core::option::Option<U>,\n    }\n}\npub use bare::S;",
+        [("S<u8, u16>", [("T", S), ("U", S)])], ["no_implicit_prelude", "generic"])
+    add("pub mod shadow {\n    use scale_info::TypeInfo;\n    pub enum Tri<T> { Some(T), None, Ok, Err }\n    pub use self::Tri::*;\n    pub struct Vec;\n    pub struct Option;\n    pub struct Box;\n    pub struct String;\n"
+        "    #[derive(TypeInfo)]\n    pub struct S<T, U> {\n        pub a: T,\n        pub b: ::std::vec::Vec<U>,\n    }\n    #[derive(TypeInfo)]\n    pub enum E<T> { A(T), B { x: T } }\n}\npub use shadow::{S, E};",
+        [("S<u8, u16>", [("T", S), ("U", S)]), ("E<bool>", [("T", S)])], ["prelude_names_shadowed", "generic"])
     # seeded decorations: combine a random subset of member kinds into bigger definitions
     pool = [("", "T"), ("", "Vec<T>"), ("", "Option<U>"), ("", "Box<(T, U)>"), ("", "[U; 2]"), ("", "PhantomData<V>"), ("", "BTreeMap<u8, T>"), ("#[codec(compact)]\n    ", "u32"),
             ("", "Option<Box<S<T, U, V>>>"), ("#[codec(skip)]\n    ", "NoInfo"), ("", "u64"), ("", "&'static str"), ("", "PhantomData<(T, V)>")]
@@ -381,6 +395,22 @@ def negatives(seed):
         dv("#[scale_info(bounds(U: TypeInfo + 'static, T: TypeInfo + 'static))]\n", "pub struct S<T: %s, U> { a: T, b: U }" % B).replace("S<u8>", "S<u8, u8>"), ["bounds-missing-param", "inline-bound", "other-param"])
     add("derive/bounds-missing-param", dv("#[scale_info(bounds(Option<T>: TypeInfo + 'static))]\n", "pub struct S<T: %s> { a: Option<T> }" % B), dv("#[scale_info(bounds(Option<T>: TypeInfo + 'static, T: TypeInfo + 'static))]\n", "pub struct S<T: %s> { a: Option<T> }" % B), ["bounds-missing-param", "inline-bound", "only-container"])
     add("derive/bounds-missing-param", dv("#[scale_info(bounds(Vec<T>: TypeInfo + 'static))]\n"), dv("#[scale_info(bounds(Vec<T>: TypeInfo + 'static, T: TypeInfo + 'static))]\n"), ["bounds-missing-param", "only-container"])
+    # the parameter's TypeInfo bound sits in the item's own where clause: that is not the attribute naming it
+    add("derive/bounds-missing-param", dv("#[scale_info(bounds())]\n", "pub struct S<T> where T: %s { a: T }" % B), dv("#[scale_info(bounds(T: TypeInfo + 'static))]\n", "pub struct S<T> where T: %s { a: T }" % B),
+        ["bounds-missing-param", "where-clause-bound", "empty"])
+    add("derive/bounds-missing-param", dv("#[scale_info(bounds(U: TypeInfo + 'static))]\n", "pub struct S<T, U> where T: %s, U: Clone { a: T, b: U }" % B).replace("S<u8>", "S<u8, u8>"),
+        dv("#[scale_info(bounds(U: TypeInfo + 'static, T: TypeInfo + 'static))]\n", "pub struct S<T, U> where T: %s, U: Clone { a: T, b: U }" % B).replace("S<u8>", "S<u8, u8>"), ["bounds-missing-param", "where-clause-bound", "other-param"])
+    add("derive/bounds-missing-param", dv("#[scale_info(bounds(T::A: TypeInfo + 'static))]\n", "pub struct S<T: Tr> where T: %s { a: T::A }" % B).replace("S<u8>", "S<Impl>"),
+        dv("#[scale_info(bounds(T::A: TypeInfo + 'static, T: TypeInfo + 'static))]\n", "pub struct S<T: Tr> where T: %s { a: T::A }" % B).replace("S<u8>", "S<Impl>"), ["bounds-missing-param", "where-clause-bound", "only-assoc"])
+    # skip lists that are as long as the parameter list without covering it (repeated names, const parameters, stale names)
+    add("derive/bounds-missing-param", dv("#[scale_info(bounds(), skip_type_params(T, T))]\n", "pub struct S<T, U: %s> { a: PhantomData<T>, b: U }" % B).replace("S<u8>", "S<NoInfo, u8>"),
+        dv("#[scale_info(bounds(U: TypeInfo + 'static), skip_type_params(T))]\n", "pub struct S<T, U: %s> { a: PhantomData<T>, b: U }" % B).replace("S<u8>", "S<NoInfo, u8>"), ["bounds-missing-param", "skip-list-as-long-as-parameters", "repeated"])
+    add("derive/bounds-missing-param", dv("#[scale_info(bounds(), skip_type_params(T, T, T))]\n", "pub struct S<T, U: %s, V: %s> { a: PhantomData<T>, b: U, c: V }" % (B, B)).replace("S<u8>", "S<NoInfo, u8, u8>"),
+        dv("#[scale_info(bounds(U: TypeInfo + 'static, V: TypeInfo + 'static), skip_type_params(T))]\n", "pub struct S<T, U: %s, V: %s> { a: PhantomData<T>, b: U, c: V }" % (B, B)).replace("S<u8>", "S<NoInfo, u8, u8>"),
+        ["bounds-missing-param", "skip-list-as-long-as-parameters", "repeated"])
+    add("derive/bounds-missing-param", dv("#[scale_info(bounds(U: TypeInfo + 'static), skip_type_params(T, T))]\n", "pub struct S<T, U, V: %s> { a: PhantomData<T>, b: U, c: V }" % B).replace("S<u8>", "S<NoInfo, u8, u8>"),
+        dv("#[scale_info(bounds(U: TypeInfo + 'static, V: TypeInfo + 'static), skip_type_params(T))]\n", "pub struct S<T, U, V: %s> { a: PhantomData<T>, b: U, c: V }" % B).replace("S<u8>", "S<NoInfo, u8, u8>"),
+        ["bounds-missing-param", "skip-list-as-long-as-parameters", "repeated"])
     # generic parameter lists in every legal order: const parameters before type parameters, lifetimes first, defaults
     for gens, inst, unbound in [("const N: usize, T: %s" % B, "S<3, u8>", "T"), ("'a, const N: usize, T: %s" % B, "S<'static, 3, u8>", "T"), ("T: %s, const N: usize, U: %s" % (B, B), "S<u8, 3, u8>", "U"),
                                 ("const N: usize, const M: usize, T: %s" % B, "S<1, 2, u8>", "T"), ("const N: usize, T: %s, U: %s" % (B, B), "S<3, u8, u8>", "U"), ("const N: usize, T: %s = u8" % B, "S<3>", "T")]:
